@@ -177,18 +177,25 @@ def merge_stats(total, st):
             merge_stats(total.setdefault(k, {}), v)
 
 
-def run_pool(pid, tier, seed, indices, libs, timeout, nproc=NPROC, chunk=8, wall_cap=None):
+def run_pool(pid, tier, seed, indices, libs, timeout, nproc=NPROC, chunk=8, wall_cap=None, stop_after_timeouts=None):
+    """stop_after_timeouts: once that many cases ended in the 'returns-within-budget' oracle the remaining cases are not
+    started (a tree that hangs would otherwise cost timeout x cases); the violations found so far are reported."""
     ctx = multiprocessing.get_context("fork")
     chunks = [indices[i:i + chunk] for i in range(0, len(indices), chunk)]
     recs = []
     t0 = time.time()
     with cf.ProcessPoolExecutor(max_workers=nproc, mp_context=ctx) as ex:
         futs = [ex.submit(_worker_chunk, (pid, tier, seed, c, libs, timeout)) for c in chunks]
+        n_to = 0
         for f in cf.as_completed(futs):
-            recs.extend(f.result())
-            if wall_cap and time.time() - t0 > wall_cap:
+            got = f.result()
+            recs.extend(got)
+            n_to += sum(1 for r in got if any(v.get("class") == "timeout" for v in r["viol"]))
+            if (wall_cap and time.time() - t0 > wall_cap) or (stop_after_timeouts and n_to >= stop_after_timeouts):
                 for g in futs:
                     g.cancel()
+                print("NOTE: stopped early after %d of %d cases (%d of them did not return within their budget, %.0fs)" % (
+                    len(recs), len(indices), n_to, time.time() - t0), flush=True)
                 break
     recs.sort(key=lambda r: r["index"])
     return recs
